@@ -329,7 +329,10 @@ func renderPoss(r *core.Rand, p gPoss, kind int) string {
 	if p.Qual != "" {
 		s += ":" + p.Qual
 	}
-	type clause struct{ text string; paren bool }
+	type clause struct {
+		text  string
+		paren bool
+	}
 	var clauses []clause
 	if p.Op != "" {
 		opws := ws(r, kind, false)
